@@ -105,8 +105,9 @@ class C06(Prop):
                   "tools/panic_sites.py + tools/panic_table.json (hand-written justifications, cited theorem names checked); debug "
                   "assertions and overflow checks are ON in the harness build so wrap-arounds surface as panics; that the transport "
                   "wakes every task parked on one of its calls when a stream or the connection ends (SimQuic does; observed at "
-                  "executor quiescence, R-06); memory exhaustion is out of scope; KNOWN FINDING D-06u (Huffman decoder's u32 bit "
-                  "positions overflow for a string literal of 2^29 bytes or more) is probed on every run")
+                  "executor quiescence, R-06); memory exhaustion is out of scope; D-06u (the Huffman decoder's u32 bit positions "
+                  "overflowed for a string literal of 2^29 bytes or more; repaired: such a literal is refused, "
+                  "C15_huffman_positions_fit) stays probed on every run with its witness (a panic there is a failing input)")
     rule = ("adversarial peer scripts: grammar-mutated and arbitrary bytes on request, control, QPACK and unknown streams, random "
             "chunking, FIN/RESET/STOP_SENDING/close/timeout injected at every step index of base scenarios (with and without valid "
             "trailers and grease frames between / behind the frames), both roles, documented call patterns - and, on a tree with the "
